@@ -1231,19 +1231,6 @@ _router_entry("C10",
     "case = (history, request); non-trivial = dispatched (to a static or shadowing dynamic route)")
 PROPS["C09"]["props_modules"] = ["Flamego.Props.C09", "Flamego.Props.C09Values"]
 PROPS["C09"]["code_modules"] = ["Flamego.Props.C09Code"]
-PROPS["C12"]["code_modules"] = ["Flamego.Props.C12Code"]
-PROPS["C12"]["technique"] = PROPS["C12"]["technique"] + "; code-level tie for router.URLPath: its body (name lookup and panic, the index loop over the pairs, withOptional) is translated to Lean on every run and proved equal to the model's Router.urlPath"
-PROPS["C12"]["level_text"] = PROPS["C12"]["level_text"] + (
-    " CODE-LEVEL TIE: the body of router.URLPath in Gen/RouterCode.lean (regenerated from router.go on every run; a panic is the "
-    "result `none`, the loop `for i := 1; i < len(pairs); i += 2` a translated index loop, Leaf.URLPath stands for the model's "
-    "urlPath) and Props/C12Code: pairs_loop (the loop computes the model's pairs-to-map function: later duplicates win, a trailing "
-    "odd element is ignored), urlPath_refines (the body returns what the model's Router.urlPath returns, `none` exactly for an unknown "
-    "name; the router is unchanged), names_agree_of. When the source leaves the translated subset or a proof no longer checks, the "
-    "evidence says so and the correspondence, run over four seeds instead of one, decides.")
-PROPS["C12"]["trusted_base"] = PROPS["C12"]["trusted_base"] + [
-    "code-level tie: the Go→Lean translator of method bodies (translator/gocode.go, routercode.go), Code/GoSem.lean, Code/LibRoute.lean "
-    "(Leaf.URLPath stands for the model's urlPath on the leaf's route — the substitution itself is the model's, tied by the "
-    "correspondence); an index out of range is not represented (the loop's indices are in range by its bound)"]
 
 for _pid in ("C07", "C10"):
     PROPS[_pid]["code_modules"] = ["Flamego.Props.C10Code"] + (["Flamego.Props.C07Code"] if _pid == "C07" else [])
@@ -1342,6 +1329,20 @@ for _pid in ("C02", "C08", "C11", "C12", "C13", "C14", "C15", "C16", "C17", "C18
 PROPS["C01"]["props_modules"] = PROPS["C01"]["props_modules"] + ["Flamego.Props.ConstFacts.C02"]
 
 HOOK_COMMITS = ["a5cf397"]  # /repo commit adding verif_export.go (//go:build verif)
+
+PROPS["C12"]["code_modules"] = ["Flamego.Props.C12Code"]
+PROPS["C12"]["technique"] = PROPS["C12"]["technique"] + "; code-level tie for router.URLPath: its body (name lookup and panic, the index loop over the pairs, withOptional) is translated to Lean on every run and proved equal to the model's Router.urlPath"
+PROPS["C12"]["level_text"] = PROPS["C12"]["level_text"] + (
+    " CODE-LEVEL TIE: the body of router.URLPath in Gen/RouterCode.lean (regenerated from router.go on every run; a panic is the "
+    "result `none`, the loop `for i := 1; i < len(pairs); i += 2` a translated index loop, Leaf.URLPath stands for the model's "
+    "urlPath) and Props/C12Code: pairs_loop (the loop computes the model's pairs-to-map function: later duplicates win, a trailing "
+    "odd element is ignored), urlPath_refines (the body returns what the model's Router.urlPath returns, `none` exactly for an unknown "
+    "name; the router is unchanged), names_agree_of. When the source leaves the translated subset or a proof no longer checks, the "
+    "evidence says so and the correspondence, run over four seeds instead of one, decides.")
+PROPS["C12"]["trusted_base"] = PROPS["C12"]["trusted_base"] + [
+    "code-level tie: the Go→Lean translator of method bodies (translator/gocode.go, routercode.go), Code/GoSem.lean, Code/LibRoute.lean "
+    "(Leaf.URLPath stands for the model's urlPath on the leaf's route — the substitution itself is the model's, tied by the "
+    "correspondence); an index out of range is not represented (the loop's indices are in range by its bound)"]
 
 _ALL = ['C01', 'C02', 'C03', 'C04', 'C05', 'C06', 'C07', 'C08', 'C09', 'C10', 'C11', 'C12', 'C13', 'C14', 'C15', 'C16', 'C17', 'C18']
 NOT_APPLICABLE = [
